@@ -216,3 +216,24 @@ def is_neg_of(a, b):
 
 def lineno(node):
     return getattr(node, "lineno", 0)
+
+
+def ncmp(test):
+    """Normalised single comparison: (op, left, right) with op in < <= == != (or None)."""
+    if isinstance(test, ast.Compare) and len(test.ops) == 1:
+        op, a, b = compare_triples(test)[0]
+        return norm_compare(op, a, b)
+    return None
+
+
+def dot_args(node):
+    """np.dot(a, b) / a.dot(b) / a @ b -> (a, b) else None."""
+    if isinstance(node, ast.Call):
+        cn = call_name(node) or ""
+        if cn in ("np.dot", "numpy.dot") and len(node.args) == 2:
+            return node.args[0], node.args[1]
+        if isinstance(node.func, ast.Attribute) and node.func.attr == "dot" and len(node.args) == 1 and cn not in ("np.dot", "numpy.dot"):
+            return node.func.value, node.args[0]
+    if isinstance(node, ast.BinOp) and isinstance(node.op, ast.MatMult):
+        return node.left, node.right
+    return None
